@@ -1,7 +1,7 @@
 """C05 — permissive decoding passes unknown fields through unchanged."""
 from ..facts import Program, AnalysisBroken
 from .. import q
-from . import c04
+from . import c04, c02
 
 CLAIM = {
     'text': 'Structural preconditions of pass-through: both MessageBase::encode bodies emit the pass-through buffer after the positioned '
@@ -19,6 +19,7 @@ EXPLANATION = (
     "was captured before that offset; R05.3 decode_group has a permissive parameter (or consults one) and can capture unknown tokens. "
     "R05.4 no test on the number of bytes the decoders consumed can make Message::factory reject when permissive_mode is true. "
     "R05.5 tag text becomes the lookup key without wrap-around, so a tag outside the schema cannot alias a known field (rule of C04 R04.2). "
+    "R05.6 Message::encode(f8String&) takes the length from the encoder, not from a C string (rule of C02 R02.7). "
     "NOT decided: decoded values.")
 
 MB = 'FIX8::MessageBase::'
@@ -72,6 +73,8 @@ def run(ctx):
     calls = [c for c in d.calls_to(MB + 'decode_group')]
     ctx.check(bool(calls), 'R05.3', MB + 'decode#calls-group-decoder', d.loc, 'the section decoder delegates groups to decode_group')
 
+    # ---------------- R05.6 pass-through bytes may contain anything: the string overload of encode hands over (pointer, length) (rule of C02 R02.7)
+    c02.string_overload_rule(ctx, prog, 'R05.6')
     # ---------------- R05.5 an unknown tag must stay unknown: the tag text is converted to the lookup key without wrap-around (rule of C04 R04.2)
     c04.tag_rule(ctx, prog, 'R05.5')
     # ---------------- R05.4 the factory must not reject a permissive decode on account of what was (or was not) consumed
